@@ -339,7 +339,7 @@ func runC07(ctx *vh.Ctx) error {
 			return err
 		}
 	}
-	n := ctx.N(3000, 80000)
+	n := ctx.N(15000, 80000)
 	for i := 0; i < n && ctx.TimeLeft(); i++ {
 		var c *c20Case
 		if ctx.Rng.Chance(55) {
